@@ -107,7 +107,7 @@ PROPS = {
         assumptions=["cyvcf2 reports PL as an int32 array with INT_MIN for missing and INT_MIN+1 for vector end"],
     ),
     "C04": dict(
-        units=["GenBins", "GenRegions", "GenOffsets", "GenRefine"],
+        units=["GenBins", "GenRegions", "GenOffsets", "GenRefine", "GenIndexedVcf"],
         props_files=["Props/C04.v"],
         driver="c04",
         rule="generated VCF/BCF (window-spanning and bin-exceeding records, duplicate positions, used/unused/skipped contigs, "
